@@ -83,6 +83,11 @@ namespace c20
     {
         if constexpr (cls_v<A> == FIXED) return A::dim();
         else if constexpr (cls_v<A> == HYBRID) return A::dim();
+        else if constexpr (cls_v<A> == ND) {
+            // tuple / array shapes fix the dimension at compile time (0 for resizable shape containers)
+            constexpr auto N = meta::len_v<typename A::shape_type>;
+            if constexpr (N > 0) return (size_t)N; else return 0;
+        }
         else return 0;
     }
 
@@ -224,10 +229,14 @@ namespace c20
             out.tok("V");
         } else {
             if (variadic) {
+                // a tuple shape fixes the arity of the variadic form at compile time
+                constexpr bool tup = meta::is_tuple_v<typename A::shape_type>;
+                constexpr auto D = static_dim<A>();
+                if (tup && s.size() != D) { out.tok("U"); return; }
                 switch (s.size()) {
-                case 1: emit_res(out, a.resize((size_t)s[0])); break;
-                case 2: emit_res(out, a.resize((size_t)s[0], (size_t)s[1])); break;
-                case 3: emit_res(out, a.resize((size_t)s[0], (size_t)s[1], (size_t)s[2])); break;
+                case 1: if constexpr (!tup || D == 1) emit_res(out, a.resize((size_t)s[0])); break;
+                case 2: if constexpr (!tup || D == 2) emit_res(out, a.resize((size_t)s[0], (size_t)s[1])); break;
+                case 3: if constexpr (!tup || D == 3) emit_res(out, a.resize((size_t)s[0], (size_t)s[1], (size_t)s[2])); break;
                 default: out.tok("U"); break;
                 }
             } else {
@@ -269,6 +278,13 @@ namespace c20
         using T = elem_t<A>;
         if constexpr (cls_v<A> == ND) {
             out.tok("U");
+        } else if constexpr (cls_v<A> == FIXED) {
+            // fixed_ndarray only accepts fixed-size sources: the nested raw array of its own shape
+            typename A::data_type tmp;
+            auto* p = reinterpret_cast<T*>(&tmp);
+            for (size_t k = 0; k < (size_t)A::numel_; k++) p[k] = (T)(base + (long long)k);
+            a = std::move(tmp);
+            out.tok("OK");
         } else {
             auto inf = info(a);
             if (!inf.safe) { out.tok("X"); return; }
